@@ -81,6 +81,8 @@ for name in names:
         'dense': service('dense', s[0], s[2], mode='mode 1', spacing=37.5e9, nch=126, power=0.002, bidir=True),
         'hot': service('hot', s[1], s[0], mode='mode 1', nch=96, power=0.004),
         'nopath': service('nopath', s[0], s[2], include=[f'roadm {s[0]}', f'roadm {s[1]}', f'roadm {s[0]}'], strict=True),
+        # the same end points and the same list of nodes to cross as 'nopath', but as a wish (LOOSE): routed on the shortest path
+        'nopath_but_loose': service('nopath_loose', s[0], s[2], include=[f'roadm {s[0]}', f'roadm {s[1]}', f'roadm {s[0]}'], strict=False),
         'infeasible': service('infeasible', s[0], s[2], mode='mode 2', spacing=75e9, power=1e-6),
         'via1': service('via1', s[0], s[2], include=[f'roadm {s[1]}'], strict=True),
         'via_other': service('via_other', s[0], s[2], include=[f'roadm {s[-1]}'], strict=True) if len(s) > 3 else
@@ -102,7 +104,8 @@ for name in names:
     batches = [list(p) for p in itertools.permutations(['dense', 'fixed', 'bidir'])] + \
         [list(p) for p in itertools.permutations(['hot', 'auto', 'bidir2'])] + \
         [list(p) for p in itertools.permutations(['via1', 'via_other', 'same_as_fixed_but_loose'])] + \
-        [['nopath', 'fixed', 'infeasible', 'auto'], ['infeasible', 'auto', 'fixed', 'nopath'], ['dense', 'hot', 'auto', 'bidir', 'bidir2'],
+        [['nopath', 'nopath_but_loose', 'fixed'], ['nopath_but_loose', 'fixed', 'nopath'], ['via1', 'nopath_but_loose', 'nopath', 'same_as_fixed_but_loose'],
+         ['nopath', 'fixed', 'infeasible', 'auto'], ['infeasible', 'auto', 'fixed', 'nopath'], ['dense', 'hot', 'auto', 'bidir', 'bidir2'],
          ['bidir2', 'bidir', 'auto', 'hot', 'dense']]
     nrand = 6 if a.tier == 'quick' else 30
     for _ in range(nrand):
@@ -110,7 +113,12 @@ for name in names:
     for b in batches:
         b = [k for k in b if k in keys]
         cases += 1
-        res, changed = plan(net0, eqpt, [pool[k] for k in b])
+        try:
+            res, changed = plan(net0, eqpt, [pool[k] for k in b])
+        except Exception as e:
+            wit.append({'key': f'{name}:planning-fails-on-the-batch:{b}',
+                        'problems': f'{type(e).__name__}: {e} although every request of the batch is answered when planned alone'[:300]})
+            continue
         if changed:
             wit.append({'key': f'{name}:network-changed:{b}', 'changed': {u: c for u, c in list(changed.items())[:3]}})
         for k in b:
@@ -177,5 +185,5 @@ for name in names:
                     wit.append({'key': key, 'alone_vs_batch': json.dumps(diff, default=str)[:600]})
 finish('request results independent of batch content/order; network settings untouched by planning', 'bounded',
        'gnpy.tools.worker_utils.planning -> compute_path_with_disjunction / requests_aggregation',
-       f'topologies {names}, 11 request kinds (fixed/auto mode, bidirectional, dense saturating comb, high power, blocked, infeasible, '
+       f'topologies {names}, 12 request kinds (fixed/auto mode, bidirectional, dense saturating comb, high power, blocked, infeasible, '
        f'route constraints), all orders of 3 triples + mixed batches + {nrand} random batches; two unrelated synchronisation groups in 4 orders', cases, wit, nontrivial=nontriv, t0=t0)
